@@ -138,7 +138,10 @@ def run_pipeline(mesh, test_spec, trial_spec, kernel_key=None, numeric=False, se
         def K(x, y, nx, ny, par):
             return S.fn("K", list(x) + list(y) + ([] if nonorm else list(nx) + list(ny)) + list(par), stub_numeric)
 
-    desc = OperatorDescriptor("stub", par, kernel_key, assembly_type, "double", False, None, 1)
+    # complex result type for the Helmholtz-type kernels in the float replay (with proxy values the allocation dtype is `object` anyway)
+    from specs import kernels as _KS
+
+    desc = OperatorDescriptor("stub", par, kernel_key, assembly_type, "double", bool(numeric and _KS.NPARAMS[kernel_key] == 2), None, 1)
     stubs = {kernel_key + "_regular": kr, kernel_key + "_singular": ks}
     params = _pipeline_parameters()
     if numeric:
@@ -304,8 +307,28 @@ def _spec(s):
 
 def ob_pipeline(mesh, test_spec, trial_spec, domain_indices=None, trial_mesh=None, assembly_type="default_scalar", par_case="ki!=0", trial_domain_indices=None):
     di = np.array(domain_indices, dtype="uint32") if domain_indices is not None else None
-    ok, detail, info = check_pipeline(mesh, test_spec, trial_spec, numeric=False, domain_indices=di, trial_mesh=trial_mesh, assembly_type=assembly_type,
-                                      par_case=par_case, trial_domain_indices=trial_domain_indices)
+    try:
+        ok, detail, info = check_pipeline(mesh, test_spec, trial_spec, numeric=False, domain_indices=di, trial_mesh=trial_mesh, assembly_type=assembly_type,
+                                          par_case=par_case, trial_domain_indices=trial_domain_indices)
+    except S.Undecided:
+        raise
+    except Exception as ex:  # noqa
+        # the real code left the part of numpy that runs on proxy values (or raised on a well-formed input): decided natively on floats, never a checker error
+        try:
+            rp = replay_pipeline(mesh, list(test_spec), list(trial_spec), domain_indices, trial_mesh, assembly_type=assembly_type, par_case=par_case,
+                                 trial_domain_indices=trial_domain_indices)
+        except Exception as ex2:  # noqa
+            return violated("the real assembly pipeline raises on a well-formed input: %s: %s" % (type(ex2).__name__, str(ex2)[:200]),
+                            witness={"mesh": mesh, "test": list(test_spec), "trial": list(trial_spec)}, signature="pipeline/%s/raises" % assembly_type, replay={"confirmed": True})
+        if rp["violates"]:
+            return violated("symbolic execution of the pipeline not possible (%s: %s); the same contract evaluated on floats fails: %s" % (type(ex).__name__, str(ex)[:120], str(rp)[:300]),
+                            witness={"mesh": mesh, "test": list(test_spec), "trial": list(trial_spec), "domain_indices": domain_indices},
+                            replay={"callable": "vlib.pipeline:replay_pipeline",
+                                    "kwargs": {"mesh": mesh, "test_spec": list(test_spec), "trial_spec": list(trial_spec), "domain_indices": domain_indices,
+                                               "trial_mesh": trial_mesh, "assembly_type": assembly_type, "par_case": par_case, "trial_domain_indices": trial_domain_indices},
+                                    "confirmed": True, "result": rp},
+                            signature="pipeline/%s/native" % assembly_type)
+        return undecided("the real pipeline cannot be executed on proxy values (%s: %s); the same contract holds on floats" % (type(ex).__name__, str(ex)[:160]))
     if ok:
         return proved("sym-exec+normal-form", detail)
     rp = replay_pipeline(mesh, list(test_spec), list(trial_spec), domain_indices, trial_mesh, assembly_type=assembly_type, par_case=par_case,
